@@ -598,6 +598,9 @@ impl FunctionCompiler<'_> {
             } => {
                 let continue_block = self.continues[&label];
 
+                // the blocks inside of the loop are being left, so their defers have to run
+                self.run_defers_until(label, false);
+
                 self.builder.ins().jump(continue_block, &[]);
             }
             hir::Stmt::Continue { label: None, .. } => unreachable!(),
@@ -620,18 +623,36 @@ impl FunctionCompiler<'_> {
     fn break_to_label(&mut self, value: Option<Value>, label: hir::ScopeId) {
         let exit_block = self.exits[&label];
 
+        self.run_defers_until(label, true);
+
+        if let Some(value) = value {
+            self.builder
+                .ins()
+                .jump(exit_block, &[BlockArg::Value(value)]);
+        } else {
+            self.builder.ins().jump(exit_block, &[]);
+        };
+    }
+
+    /// Compiles the defers of every block between here and the block or loop called `label`.
+    ///
+    /// Only the defer statements that have been reached up to this point are in the frames.
+    /// `including_label` says whether `label` itself is being left too (`break`)
+    /// or not (`continue`)
+    fn run_defers_until(&mut self, label: hir::ScopeId, including_label: bool) {
         // run all the defers from here, backwards to the one we are breaking out of
 
         let mut used_frames = Vec::new();
 
         // todo: don't do popping
         while let Some(frame) = self.defer_stack.last().cloned() {
-            // the exit block of every Expr::Block contains the instructions for running
-            // the defers. This break instruction jumps to that exit block.
-            // therefore, we only need to insert extra defer handling for everything OTHER
-            // than the block we are breaking to.
             if let Some(id) = frame.id {
                 if id == label {
+                    if including_label {
+                        for defer in frame.defers.iter().rev() {
+                            self.compile_expr(*defer);
+                        }
+                    }
                     break;
                 }
             }
@@ -646,14 +667,6 @@ impl FunctionCompiler<'_> {
         }
 
         self.defer_stack.extend(used_frames.into_iter().rev());
-
-        if let Some(value) = value {
-            self.builder
-                .ins()
-                .jump(exit_block, &[BlockArg::Value(value)]);
-        } else {
-            self.builder.ins().jump(exit_block, &[]);
-        };
     }
 
     fn store_default_in_memory(&mut self, expected_ty: Intern<Ty>, memory: MemoryLoc) {
@@ -1333,12 +1346,21 @@ impl FunctionCompiler<'_> {
                 self.func_writer[body_block] = "block_body".into();
                 let exit_block = self.builder.create_block();
                 self.func_writer[exit_block] = "block_exit".into();
+                // `exit_block` is where the block ends up when it reaches its own end. it runs all
+                // the defers of the block and then continues to `done_block`.
+                //
+                // a `break` out of this block can't use `exit_block`, because it might happen
+                // before some of the defer statements have been reached. it runs the defers
+                // that were reached itself (see `break_to_label`) and jumps to `done_block`.
+                let done_block = self.builder.create_block();
+                self.func_writer[done_block] = "block_done".into();
                 if let Some(ty) = final_ty.into_real_type() {
                     self.builder.append_block_param(exit_block, ty);
+                    self.builder.append_block_param(done_block, ty);
                 }
                 let scope_id = self.world_bodies[self.loc.file()].block_to_scope_id(expr);
                 if let Some(scope_id) = scope_id {
-                    self.exits.insert(scope_id, exit_block);
+                    self.exits.insert(scope_id, done_block);
                 }
 
                 self.defer_stack.push(DeferFrame {
@@ -1475,8 +1497,27 @@ impl FunctionCompiler<'_> {
                     }
                 }
 
+                if (no_eval && scope_id.is_none()) || *expr_ty == Ty::AlwaysJumps {
+                    // nothing reaches the end of this block and nothing breaks to it, so the
+                    // code which contains this block isn't going to add any instructions.
+                    // we leave the (empty) exit block as the current block
+                    return None;
+                }
+
                 if final_ty.into_real_type().is_some() {
-                    Some(self.builder.block_params(exit_block)[0])
+                    let value = self.builder.block_params(exit_block)[0];
+                    self.builder
+                        .ins()
+                        .jump(done_block, &[BlockArg::Value(value)]);
+                } else {
+                    self.builder.ins().jump(done_block, &[]);
+                }
+
+                self.builder.switch_to_block(done_block);
+                self.builder.seal_block(done_block);
+
+                if final_ty.into_real_type().is_some() {
+                    Some(self.builder.block_params(done_block)[0])
                 } else {
                     None
                 }
@@ -1581,10 +1622,19 @@ impl FunctionCompiler<'_> {
                 if let Some(ty) = ty.into_real_type() {
                     self.builder.append_block_param(exit_block, ty);
                 }
-                if let Some(scope_id) = self.world_bodies[self.loc.file()].block_to_scope_id(expr) {
+                let scope_id = self.world_bodies[self.loc.file()].block_to_scope_id(expr);
+                if let Some(scope_id) = scope_id {
                     self.continues.insert(scope_id, header_block);
                     self.exits.insert(scope_id, exit_block);
                 }
+
+                // a loop never has defers of its own, but `break` and `continue` have to know
+                // where to stop running defers. without this frame they didn't find the loop and
+                // ran (and later re-ran) the defers of every block around the loop
+                self.defer_stack.push(DeferFrame {
+                    id: scope_id,
+                    defers: Vec::new(),
+                });
 
                 self.builder.ins().jump(header_block, &[]);
                 self.builder.switch_to_block(header_block);
@@ -1604,6 +1654,8 @@ impl FunctionCompiler<'_> {
                 self.builder.seal_block(body_block);
 
                 self.compile_expr(body);
+
+                self.defer_stack.pop().expect("we just pushed this");
 
                 self.builder.ins().jump(header_block, &[]);
 
